@@ -31,6 +31,25 @@ first_missed.update({
     "C14-r2m2": "the design was always handed over as a new array, never updated in place",
     "C16-r2m2": "response sequences never had sensitivity()/reset() between responses",
 })
+first_missed.update({
+    "C01-r3m2": "phasors were all O(1): a 1e-12 'division guard' is invisible above 1e-4",
+    "C02-r3m1": "all seeds were O(1) and the error measure had an absolute floor of 1 (widened after reading the author's report, before the first run)",
+    "C03-r3m2": "dense inputs were C-ordered, input copies lost the layout, and the compared cycle always handed the inputs over again",
+    "C03-r3m3": "no block right-hand side through CG in a network; outputs were compared with one norm over all load cases",
+    "C04-r3m1": "linearity coefficients were O(1): a seed of 1e-9 never occurred",
+    "C05-r3m2": "C05 did not drive the wrapper at all (the defect sits in LDAWrapper's helper); C06 and C07 caught it at the first evaluation",
+    "C08-r3m2": "no micro-scale SI data: element-matrix entries never came near 1e-14",
+    "C08-r3m3": "only the spellings 'strain' and 'stress' of the plane option were used",
+    "C09-r3m1": "element sizes were O(1) in every unit system",
+    "C10-r3m1": "every start design was a float array / Python float",
+    "C13-r3m1": "evaluation points were float arrays only",
+    "C13-r3m2": "the exhaustive bound (12x12, 6^3) is far below 32767 dofs (widened after reading the author's report, before the first run)",
+    "C15-r3m1": "complex vectors were generic: none was isotropic (u.u = 0 with u != 0)",
+    "C15-r3m2": "length-1 factors were numpy scalars or 1-element vectors, never 0-d arrays",
+    "C15-r3m3": "masks were boolean arrays, never Python lists of bools",
+    "C17-r3m2": "objective values were O(1) and a run stopped by tolf while still move-limited was not judged at all (new stop-criterion oracle)",
+    "C19-r3m1": "non-zero entries were all >= 1e-2 in magnitude",
+})
 print("| id | defect (needs) | caught by (quick tier) | first evaluation |")
 print("|---|---|---|---|")
 for f in sorted(glob.glob(os.path.join(HERE, "seeded", "*", "meta.json"))):
